@@ -460,7 +460,10 @@ class SMCSampler(MCMCSampler):
             meta.get("min_step", None) if isinstance(meta, dict) else None
         )
         iteration = state.get("iteration", 0)
-        self.history = state.get("history", SMCHistory())
+        # Copy: the run appends to its history, and the checkpoint it was
+        # resumed from (a dictionary the caller may resume from again) must
+        # not change with it
+        self.history = copy.deepcopy(state.get("history", SMCHistory()))
         rng_state = state.get("rng_state")
         if rng_state is not None and hasattr(self.rng, "bit_generator"):
             self.rng.bit_generator.state = rng_state
